@@ -1,6 +1,7 @@
 import TensorModel.Proofs.Kernels
 import TensorModel.Proofs.MinMax
 import TensorModel.Proofs.IterPaths
+import TensorModel.Props.C13
 /-!
   C07 — option modes: safe is pure; `UseUnsafe` / `WithReuse` / `WithIncr` write only their destination.
   Property theorems only; helper lemmas live in `TensorModel/Proofs/Kernels.lean`
@@ -93,6 +94,57 @@ theorem unsafe_iter_writes_only_a (st : St) (op : String) (a b : Dense)
   have h1 := hoa i (List.mem_of_getElem? hi)
   have h2 := hob j (List.mem_of_getElem? hj)
   exact ⟨_, _, cell_some_cellD (hA.has.at h1.1 h1.2), cell_some_cellD (hB.has.at h2.1 h2.2), hv k i j hi hj⟩
+
+/-- **In place through a view, by coordinate, end to end.** For well-formed operands of one shape (C13: the patterns cover
+    their windows and address distinct cells) of which one needs an iterator, `UseUnsafe()` overwrites, for every
+    coordinate `c`, the cell the first operand addresses at `c` with `op` of the two operands' elements at `c` - and
+    **no cell that is not addressed by a coordinate of the first operand changes**: the gaps of a view, the rest of its
+    parent, the second operand, every other buffer. This is "writes stay inside the view" (C04) for in-place arithmetic. -/
+theorem unsafe_iter_coordinatewise (st : St) (op : String) (a b : Dense)
+    (hshape : b.ap.shape = a.ap.shape) (hdt : a.dt = b.dt) (hnum : a.dt ∈ numberTypes) (hk : a.dt ∈ kernelTypes op)
+    (hu : (a.requiresIterator || b.requiresIterator || !sameOrd a b) = true)
+    (hma : a.mask = none) (hmb : b.mask = none) (hla : a.win.len ≠ 1) (hlb : b.win.len ≠ 1)
+    (hne : a.win.buf ≠ b.win.buf)
+    (hca : C13.Covers a.ap (a.win.len : Int)) (hinja : InjectivePat a.ap.shape a.ap.strides)
+    (hcb : C13.Covers b.ap (b.win.len : Int)) (hinjb : InjectivePat b.ap.shape b.ap.strides)
+    (hA : InBuf st a.win.buf a.win.off a.win.len) (hB : InBuf st b.win.buf b.win.off b.win.len) :
+    ∃ out, engArithVV st op numberTypes a b { unsafe_ := true } = .ok out ∧ out.ret = .a ∧
+      (∀ co ∈ allCoords a.ap.shape, ∃ x y,
+        cell st a.win.buf (a.win.off + (dot co a.ap.strides).toNat) = some x ∧
+        cell st b.win.buf (b.win.off + (dot co b.ap.strides).toNat) = some y ∧
+        cell out.st a.win.buf (a.win.off + (dot co a.ap.strides).toNat) = some (.app2 op x y)) ∧
+      (∀ b' k', (b' ≠ a.win.buf ∨ ∀ co ∈ allCoords a.ap.shape, k' ≠ a.win.off + (dot co a.ap.strides).toNat) →
+        cell out.st b' k' = cell st b' k') := by
+  obtain ⟨hoa, hnd⟩ := C13.wf_offsets a a.win.len hca hinja
+  obtain ⟨hob, _⟩ := C13.wf_offsets b b.win.len hcb hinjb
+  have hsh : shapeEq a.shape b.shape = true := by
+    have : b.shape = a.shape := hshape
+    rw [this]; exact shapeEq_self _
+  obtain ⟨out, h, hret, _, hv, hfr⟩ := unsafe_iter_writes_only_a st op a b hsh hdt hnum hk hu hma hmb hla hlb hne hoa hob hnd hA hB
+  have hp := hca.2.2.1
+  have eoa : a.offsets = (allCoords a.ap.shape).map (fun c => dot c a.ap.strides) := by
+    unfold Dense.offsets; exact offsets_rowmajor a.ap hca.1 hp
+  have eob : b.offsets = (allCoords a.ap.shape).map (fun c => dot c b.ap.strides) := by
+    unfold Dense.offsets
+    rw [offsets_rowmajor b.ap hcb.1 hcb.2.2.1, hshape]
+  refine ⟨out, h, hret, ?_, ?_⟩
+  · intro co hco
+    obtain ⟨k, hk', hkc⟩ := List.getElem_of_mem hco
+    have ga : a.offsets[k]? = some (dot co a.ap.strides) := by
+      rw [eoa, List.getElem?_map, List.getElem?_eq_getElem hk', hkc]; rfl
+    have gb : b.offsets[k]? = some (dot co b.ap.strides) := by
+      rw [eob, List.getElem?_map, List.getElem?_eq_getElem hk', hkc]; rfl
+    exact hv k _ _ ga gb
+  · intro b' k' hbk
+    apply hfr
+    rcases hbk with hb | hk'
+    · exact Or.inl hb
+    · refine Or.inr ?_
+      intro k i j hi _
+      have : i ∈ a.offsets := List.mem_of_getElem? hi
+      rw [eoa] at this
+      obtain ⟨co, hco, rfl⟩ := List.mem_map.mp this
+      exact hk' co hco
 
 /-- **`MinBetween` / `MaxBetween` with `UseUnsafe()`** (finding F11, repaired: no result tensor is allocated when the
     call is to work in place), raw path: the elementwise minimum / maximum overwrites the window of `a` and `a` itself
@@ -349,6 +401,11 @@ example := unsafe_writes_only_a st "add" ta tb (by decide) rfl (by decide) (by d
   (by decide) (by decide) rfl (by decide) inA inB
 example := unsafe_iter_writes_only_a st "add" tT tb (by decide) rfl (by decide) (by decide) (by decide) rfl rfl (by decide)
   (by decide) (by decide) (by decide) (by decide) (by decide) ⟨_, rfl, by decide⟩ ⟨_, rfl, by decide⟩
+example := unsafe_iter_coordinatewise st "add" tT tb rfl rfl (by decide) (by decide) (by decide) rfl rfl (by decide) (by decide)
+  (by decide) ⟨rfl, by decide, by decide, by decide⟩ (by
+    have h := C13.T_distinct [1, 0] [2, 2] [2, 1] (by decide) rfl (C13.default_distinct [2, 2])
+    simpa [gatherI, tT] using h)
+  ⟨rfl, by decide, by decide, by decide⟩ (C13.default_distinct [2, 2]) ⟨_, rfl, by decide⟩ ⟨_, rfl, by decide⟩
 example := minmax_unsafe_writes_only_a st "minb" ta tb (by decide) rfl (by decide) (by decide) (by decide) (by decide)
   (by decide) rfl (by decide) inA inB
 /-- the former witness of F11 (`mmb minb fn $0 $1 unsafe`) runs: cell 0 of `a` holds `minb a[0] b[0]` -/
